@@ -54,7 +54,7 @@ def env_for(wt):
 
 
 def run_demo(sdir, wt):
-    demo = os.path.join(sdir, "demo.py")
+    demo = os.path.join(os.path.abspath(sdir), "demo.py")
     rc, out = sh([PY, demo], cwd=wt, env=env_for(wt), timeout=600)
     return rc, out
 
